@@ -6,6 +6,10 @@
     `if let LO..=HI = integer % M` teens guard and the `match integer % D` rows.
 and the two facts of the rule body (linting/correct_number_suffix.rs) and of condense_number_suffixes
 (document.rs) that the model hard-wires: the suffix span expression and the `len() != 2` guard.
+For the lexer path of Model/Number.v it also emits Punctuation::from_char (+ Currency::from_char) reduced to
+the three classes the model distinguishes (apostrophe / period / other), the quote characters of lex_quote,
+the float characters of lex_number, the hostname character class, and re-checks verbatim the dispatch order
+of lex_token, the pass order of Document::parse and the contraction pattern.
 Raises when a shape is not recognised (the check then reports a broken tie)."""
 import os, re
 
@@ -35,6 +39,104 @@ def body_of(src, header_re):
                 return src[i + 1:j]
         j += 1
     raise ValueError("unbalanced braces after %r" % header_re)
+
+
+CHAR_RE = r"'(?:\\u\{[0-9A-Fa-f]+\}|\\.|[^'\\])'"
+_ESC = {"n": 10, "t": 9, "r": 13, "0": 0, "\\": 92, "'": 39, '"': 34}
+
+
+def char_lit(tok):
+    body = tok[1:-1]
+    if body.startswith("\\u{"):
+        return int(body[3:-1], 16)
+    if body.startswith("\\"):
+        if len(body) != 2 or body[1] not in _ESC:
+            raise ValueError("unknown escape " + tok)
+        return _ESC[body[1]]
+    if len(body) != 1:
+        raise ValueError("bad char literal " + tok)
+    return ord(body)
+
+
+def fn_body(src, name):
+    """body of `fn name`, braces inside char literals not counted"""
+    m = re.search(r"fn\s+%s\b[^{]*\{" % re.escape(name), src)
+    if not m:
+        raise ValueError("fn %s not found" % name)
+    i = j = m.end()
+    depth = 1
+    while depth > 0:
+        if j >= len(src):
+            raise ValueError("unbalanced body of " + name)
+        mm = re.match(CHAR_RE, src[j:])
+        if mm:
+            j += mm.end()
+            continue
+        if src[j] == "{":
+            depth += 1
+        elif src[j] == "}":
+            depth -= 1
+        j += 1
+    return src[i:j - 1]
+
+
+EXPECTED_LEXERS = ["lex_regexish", "lex_punctuation", "lex_tabs", "lex_spaces", "lex_newlines", "lex_plural_digit",
+                   "lex_hex_number", "lex_long_decade", "lex_number", "lex_url", "lex_email_address",
+                   "lex_hostname_token", "lex_word", "lex_catch"]
+EXPECTED_PASSES = ["condense_spaces", "condense_newlines", "newlines_to_breaks", "condense_contractions",
+                   "condense_dotted_initialisms", "condense_number_suffixes", "condense_ellipsis", "condense_latin",
+                   "match_quotes", "articles_imply_nouns"]
+
+
+def lexer_tables(repo):
+    """-> (punct rows [(cp, class)], quote chars, float extra chars)"""
+    core = os.path.join(repo, "harper-core/src")
+    rd = lambda rel: strip_tests(open(os.path.join(core, rel), encoding="utf-8").read())
+    punct_src, cur_src, lex_src, host_src, doc_src = rd("punctuation.rs"), rd("currency.rs"), rd("lexing/mod.rs"), rd("lexing/hostname.rs"), rd("document.rs")
+    fc = fn_body(punct_src, "from_char")
+    rows = [(char_lit(m.group(1)), m.group(2)) for m in re.finditer(r"(%s)\s*=>\s*Punctuation::(\w+)\s*," % CHAR_RE, fc)]
+    if not re.search(r"_\s*=>\s*Punctuation::Currency\(Currency::from_char\(c\)\?\)", fc):
+        raise ValueError("Punctuation::from_char: fall-through arm is no longer Currency::from_char(c)?")
+    if len(re.findall(r"=>", fc)) != len(rows) + 1:
+        raise ValueError("Punctuation::from_char: unrecognised arms")
+    cb = fn_body(cur_src, "from_char")
+    crow = [char_lit(m.group(1)) for m in re.finditer(r"(%s)\s*=>\s*Self::\w+\s*," % CHAR_RE, cb)]
+    if len(re.findall(r"=>", cb)) != len(crow) + 1 or not re.search(r"_\s*=>\s*return None", cb):
+        raise ValueError("Currency::from_char: unrecognised arms")
+    cls = {"Apostrophe": "PApostrophe", "Period": "PPeriod"}
+    prow = [(cp, cls.get(v, "POther")) for cp, v in rows] + [(cp, "POther") for cp in crow]
+    if len({cp for cp, _ in prow}) != len(prow):
+        raise ValueError("punctuation table has a duplicate character")
+    q = fn_body(lex_src, "lex_quote")
+    m = re.search(r"if\s+((?:c\s*==\s*%s\s*(?:\|\|)?\s*)+)\{" % CHAR_RE, q)
+    if not m:
+        raise ValueError("lex_quote: condition not recognised")
+    quotes = [char_lit(t) for t in re.findall(CHAR_RE, m.group(1))]
+    b = fn_body(lex_src, "lex_number")
+    m = re.search(r"position\(\|c\|\s*!\(c\.is_ascii_digit\(\)\s*\|\|\s*matches!\(c,\s*(.*?)\)\)\)", b, re.S)
+    if not m:
+        raise ValueError("lex_number: the bound on the candidate is not recognised")
+    floats = [char_lit(t) for t in re.findall(CHAR_RE, m.group(1))]
+    for needle in ["if !source[0].is_numeric() {", "s.parse::<f64>()", "s.pop()", "next_index: s.len(),", "let mut s: String = source[0..end + 1].iter().collect();"]:
+        if needle not in b:
+            raise ValueError("lex_number: expected %r" % needle)
+    if not re.search(r"'A'\.\.='Z' \| 'a'\.\.='z' \| '0'\.\.='9' \| '-'", fn_body(host_src, "lex_hostname")):
+        raise ValueError("lex_hostname character class changed")
+    b = fn_body(lex_src, "lex_token")
+    m = re.search(r"let lexers = \[(.*?)\];", b, re.S)
+    if not m:
+        raise ValueError("lex_token: lexer list not found")
+    names = [re.sub(r"//.*", "", l).strip().rstrip(",") for l in m.group(1).split("\n")]
+    names = [n for n in names if n]
+    if names != EXPECTED_LEXERS:
+        raise ValueError("lex_token dispatch order changed: %r" % names)
+    passes = re.findall(r"self\.(\w+)\(\);", fn_body(doc_src, "parse"))
+    if passes != EXPECTED_PASSES:
+        raise ValueError("Document::parse pass order changed: %r" % passes)
+    b = fn_body(doc_src, "uncached_contraction_pattern")
+    if re.sub(r"\s", "", b) != "Lrc::new(SequencePattern::default().then_any_word().then_apostrophe().then_any_word(),)":
+        raise ValueError("contraction pattern not recognised")
+    return prow, quotes, floats
 
 
 def generate(repo):
@@ -157,5 +259,19 @@ def generate(repo):
     out.append("Definition digit_modulus : N := %d%%N." % dmod)
     out.append("Definition digit_table : list (N * suffix) :=")
     out.append("  " + coq_list("(%d, %s)" % r for r in drows) + "%N.")
+    out.append("")
+    prow, quotes, floats = lexer_tables(repo)
+    out.append("(* Punctuation::from_char (with its Currency::from_char fall-through), reduced to the classes Number.v")
+    out.append("   distinguishes; rows in source order; any other character is not punctuation *)")
+    out.append("Inductive pclass := PApostrophe | PPeriod | POther.")
+    out.append("Definition punct_table : list (N * pclass) :=")
+    out.append("  " + coq_list("(%d, %s)" % r for r in prow) + "%N.")
+    out.append("(* lex_quote *)")
+    out.append("Definition quote_chars : list N := " + coq_list(str(c) for c in quotes) + "%N.")
+    out.append("(* lex_number: besides ASCII digits, the characters a candidate may contain *)")
+    out.append("Definition float_extra_chars : list N := " + coq_list(str(c) for c in floats) + "%N.")
+    out.append("(* checked verbatim by the translator: lex_token tries " + ", ".join(EXPECTED_LEXERS) + " in this order;")
+    out.append("   Document::parse runs " + ", ".join(EXPECTED_PASSES) + " in this order;")
+    out.append("   the contraction pattern is any_word, apostrophe, any_word; lex_hostname accepts [A-Za-z0-9-] *)")
     out.append("")
     return "\n".join(out)
